@@ -27,7 +27,11 @@ Init ==
 
 Antichains(A) == {H \in SUBSET A : H # {} /\ \A x \in H : \A y \in H : x # y => x \notin Anc(chg, {y})}
 
-IsoCands(a) == <<a, 256 + a, 512 + a, 768 + a>>
+(* actor numbers: bytes below 0x20 are themselves and their isolation actors 256*level + byte sort
+   after them; bytes from 0x20 on are 100000 + byte and their isolation actors 256*level + byte sort
+   before them (harness/src/enc.rs actor_num) *)
+IsoBase(a) == IF a >= 100000 THEN a - 100000 ELSE a
+IsoCands(a) == <<a, 256 + IsoBase(a), 512 + IsoBase(a), 768 + IsoBase(a), 1024 + IsoBase(a)>>
 
 NewChange(r, a, iso, nops) ==
   LET m == CommitMeta(chg, applied[r], a, iso)
